@@ -29,23 +29,18 @@ class Counter:
         self.n = 0
 
 
-def instrument(method, counter):
-    """Wrap the compiled function pointer held by a TensorMethod.  -> False if it cannot be found."""
-    if getattr(method, "_verif_counter", None) is counter:
-        return True
-    fn = getattr(method, "_evaluate", None)
-    if fn is None or not callable(fn):
-        return False
-    inner = getattr(fn, "_verif_inner", fn)
+def counting_class(counter):
+    """TensorMethod subclass whose compiled function pointer counts every entry (verif/kernelhook.py)."""
+    from .. import kernelhook
 
-    def kernel(*args):
-        counter.n += 1
-        return inner(*args)
+    def wrap(fn, method):
+        def kernel(*args):
+            counter.n += 1
+            return fn(*args)
 
-    kernel._verif_inner = inner
-    method._evaluate = kernel
-    method._verif_counter = counter
-    return True
+        return kernel
+
+    return kernelhook.hooked_class(wrap)
 
 
 class Duck:
@@ -136,25 +131,23 @@ def probe(rec, counter, call, what, ctx):
 
 def do_case(rec, rng, case, backend="llvm"):
     import tensora
-    from tensora.compile import _porcelain
+    from tensora.compile import BackendCompiler, BroadcastTargetIndexError
+    from tensora.desugar import DiagonalAccessError, NoKernelFoundError
+
+    from .. import kernelhook
 
     counter = Counter()
+    cls = counting_class(counter)
     try:
         problem = engine.make_problem(case)
-        if backend == "cffi":
-            from tensora.compile import BackendCompiler, TensorMethod
-
-            try:
-                method = TensorMethod(problem, BackendCompiler.cffi)
-            except Exception as exc:  # noqa: BLE001 - refusals are C08's subject
-                raise engine.Refused(type(exc).__name__) from exc
-        else:
-            method = engine.jit_method(problem, None)
+        try:
+            method = cls(problem, BackendCompiler.cffi if backend == "cffi" else BackendCompiler.llvm)
+        except (DiagonalAccessError, NoKernelFoundError, BroadcastTargetIndexError) as exc:
+            raise engine.Refused(type(exc).__name__) from exc
+        except Exception as exc:  # noqa: BLE001 - generation failures are C08's subject
+            raise engine.InternalError(exc) from exc
     except (engine.Refused, engine.InternalError):
         rec.count("no_kernel")
-        return
-    if not instrument(method, counter):
-        rec.inconclusive_because("the compiled function pointer of TensorMethod was not found (attribute moved)")
         return
     dims = engine.input_dims(case)
     tensors = engine.jit_inputs(case)
@@ -172,32 +165,24 @@ def do_case(rec, rng, case, backend="llvm"):
     rec.count(f"consistent_calls_{backend}")
     for what, kw, args in faults_for(rng, case, tensors, dims, False):
         probe(rec, counter, lambda: method(*args, **kw), what, ctx)
-    if backend == "llvm" and rng.random() < 0.5:
-        # the documented string entry point (kernel cache in front of TensorMethod)
-        try:
-            m2 = tensora.tensor_method(case.assignment, dict(case.formats))
-        except Exception as exc:  # noqa: BLE001
-            rec.violation("tensor_method-raised-for-a-problem-TensorMethod-accepts", {**ctx, "error": f"{type(exc).__name__}: {exc}"[:200]})
-            return
-        c2 = Counter()
-        if instrument(m2, c2):
+    with kernelhook.patched_porcelain(cls):
+        if backend == "llvm" and rng.random() < 0.5:
+            # the documented string entry point (kernel cache in front of TensorMethod)
+            try:
+                m2 = tensora.tensor_method(case.assignment, dict(case.formats))
+            except Exception as exc:  # noqa: BLE001
+                rec.violation("tensor_method-raised-for-a-problem-TensorMethod-accepts", {**ctx, "error": f"{type(exc).__name__}: {exc}"[:200]})
+                return
             ctx3 = {**ctx, "path": "tensor_method(str)"}
+            before = counter.n
             m2(**tensors)
-            if c2.n == 1:
+            if counter.n == before + 1:
                 rec.count("consistent_calls_string_api")
                 for what, kw, args in faults_for(rng, case, tensors, dims, False):
-                    probe(rec, c2, lambda: m2(*args, **kw), what, ctx3)
-        _porcelain.cachable_tensor_method.cache_clear()
-    # evaluate(): formats come from the arguments, so only name/type/order/dimension faults apply
-    orig = _porcelain.cachable_tensor_method
-
-    def hooked(problem_, backend):
-        m = orig(problem_, backend)
-        instrument(m, counter)
-        return m
-
-    _porcelain.cachable_tensor_method = hooked
-    try:
+                    probe(rec, counter, lambda: m2(*args, **kw), what, ctx3)
+            else:
+                rec.inconclusive_because("kernel_enter did not advance on a consistent tensor_method(str) call")
+        # evaluate(): formats come from the arguments, so only name/type/order/dimension faults apply
         out_fmt = case.formats[case.target[1]]
         ctx2 = {**ctx, "path": "evaluate" if backend == "llvm" else "evaluate_cffi"}
         before = counter.n
@@ -214,9 +199,6 @@ def do_case(rec, rng, case, backend="llvm"):
             return
         for what, kw, args in faults_for(rng, case, tensors, dims, True):
             probe(rec, counter, lambda: evaluate(case.assignment, out_fmt, **kw), what, ctx2)
-    finally:
-        _porcelain.cachable_tensor_method = orig
-        _porcelain.cachable_tensor_method.cache_clear()
 
 
 SHAPES = [
@@ -264,7 +246,7 @@ def shard(rec, tier, index, n_shards):
 
 def main(tier):
     run = Run(PID, tier, LEVEL, RULE)
-    run_shards(run, "c10", 12 if tier == "quick" else 16, timeout_s=900 if tier == "quick" else 7200)
+    run_shards(run, "c10", 12 if tier == "quick" else 16, timeout_s=3600 if tier == "quick" else 7200)
     if run.counters.get("consistent_calls", 0) < 15 or run.counters.get("faults_refused", 0) < 1000:
         run.inconclusive_because("too few fault injections were judged")
     if run.counters.get("consistent_calls_cffi", 0) < 1:
